@@ -30,6 +30,8 @@ def gen_cases(gb, rng, tier):
             want = gengen.show(sch, ty, gengen.empty_value(sch, ty))
             need_err = d['kind'] == 'struct' and any(f['req'] == 'required' and f['default'] is None for f in d['fields'])
             for proto in genrun.SYNC_PROTOS:
+                if proto == 'unchecked' and d['kind'] != 'struct':
+                    continue        # the 1-byte input is only a complete message for structs (contract of the unchecked reader)
                 cases.append(dict(line=genrun.case_line('dflt', cfg, tname, proto), want=want, cfg=cfg, type=tname, proto=proto,
                                   mode='sync', kind=d['kind'], empty_must_fail=need_err, nontrivial=n_defaults(sch, tname) > 0))
     return cases
